@@ -5,10 +5,13 @@ package vh
 import (
 	"fmt"
 	"os"
+	"path/filepath"
 	"sort"
 	"strings"
 
+	"github.com/f1bonacc1/process-compose/src/admitter"
 	"github.com/f1bonacc1/process-compose/src/app"
+	"github.com/f1bonacc1/process-compose/src/loader"
 	"github.com/f1bonacc1/process-compose/src/types"
 )
 
@@ -16,6 +19,8 @@ func init() { registry["C07"] = &propDef{e1: c07Scenarios, e2: c07E2} }
 
 type c07Input struct {
 	Disabled int      `json:"disabled_mask"` // bit i: process i is disabled: true
+	NS       int      `json:"namespace_mask"` // bit i: process i is in namespace "sel" (the one selected), else in "other"
+	UseNS    bool     `json:"namespace_selection"`
 	N        int      `json:"n"`
 	Edges    [][2]int `json:"edges"` // [from, to]: from depends on to (to == N means the undefined name)
 	Strict   bool     `json:"strict"`
@@ -39,6 +44,13 @@ func (in c07Input) yaml() string {
 		}
 		if in.Disabled>>i&1 == 1 {
 			b.WriteString("    disabled: true\n")
+		}
+		if in.UseNS {
+			if in.NS>>i&1 == 1 {
+				b.WriteString("    namespace: sel\n")
+			} else {
+				b.WriteString("    namespace: other\n")
+			}
 		}
 		first := true
 		for _, e := range in.Edges {
@@ -184,12 +196,59 @@ func c07E2(tier string, o *E2Out) {
 							in := c07Input{N: c.n, Edges: edges, Strict: strict, Replicas: 1, Disabled: mask}
 							c07Disabled(o, dir, in)
 						}
+						// namespace markings with the namespace "sel" selected (n <= 3, every marking)
+						for mask := 0; mask < 1<<c.n; mask++ {
+							c07Namespaces(o, dir, c07Input{N: c.n, Edges: edges, Strict: strict, Replicas: 1, NS: mask, UseNS: true})
+						}
 					}
 				}
 				if c.n == 1 && dang == 0 {
 					break
 				}
 			}
+		}
+	}
+}
+
+// c07Namespaces: loading with a namespace selection (-n sel). What is a valid relation does not depend on the
+// selection; an accepted project holds exactly the processes of the selected namespace.
+func c07Namespaces(o *E2Out, dir string, in c07Input) {
+	fn := filepath.Join(dir, "pc.yaml")
+	if err := os.WriteFile(fn, []byte(in.yaml()), 0o644); err != nil {
+		return
+	}
+	o.Evaluations++
+	opts := &loader.LoaderOptions{FileNames: []string{fn}, IsInternalLoader: true}
+	opts.DisableDotenv(true)
+	opts.AddAdmitter(&admitter.NamespaceAdmitter{EnabledNamespaces: []string{"sel"}})
+	var prj *types.Project
+	var err error
+	if pan := safely(func() { prj, err = loader.Load(opts) }); pan != "" {
+		o.violation("C07", "load-panic:namespaces", "Load with a namespace selection panics: "+pan, in)
+		return
+	}
+	wantFail := in.cyclic() || in.dangling()
+	switch {
+	case wantFail && err == nil && in.cyclic():
+		o.violation("C07", "accepts-cycle:namespaces", "Load with -n sel accepts a cyclic dependency relation", in)
+	case wantFail && err == nil:
+		o.violation("C07", "accepts-dangling:namespaces", "Load with -n sel accepts a dependency on an undefined process", in)
+	case !wantFail && err != nil:
+		o.violation("C07", "rejects-acyclic:namespaces", fmt.Sprintf("Load with -n sel rejects a valid configuration: %v", err), in)
+	case err == nil:
+		var got, want []string
+		for n := range prj.Processes {
+			got = append(got, n)
+		}
+		for i := 0; i < in.N; i++ {
+			if in.NS>>i&1 == 1 {
+				want = append(want, c07Name(i))
+			}
+		}
+		sort.Strings(got)
+		sort.Strings(want)
+		if strings.Join(got, ",") != strings.Join(want, ",") {
+			o.violation("C07", "namespaces:set", fmt.Sprintf("Load with -n sel holds %v, the selected namespace has %v", got, want), in)
 		}
 	}
 }
